@@ -22,7 +22,7 @@ import ast
 from fnmatch import fnmatch
 from typing import Dict, List, Optional, Set, Tuple
 
-from ..cfg import CFG, EXC, BASE, edges_guaranteeing
+from ..cfg import CFG, EXC, BASE, edges_guaranteeing, reaching_defs
 from ..engine import (
     AnalysisError,
     FuncNode,
@@ -65,6 +65,238 @@ def _deref(fn: Optional[ast.AST], e: Optional[ast.AST]) -> Optional[ast.AST]:
             return e  # the object is changed after it was built: the literal is not its final value
         e = vals[0]
     return e
+
+
+def _bindings(st: ast.AST) -> List[Tuple[str, Optional[ast.AST]]]:
+    """(local, value bound to it) for every plain name an assignment statement binds; a tuple target is paired
+    with a tuple value element by element; the value is None where it cannot be separated (unpacking of
+    something that is not a displayed tuple, augmented assignment)."""
+    out: List[Tuple[str, Optional[ast.AST]]] = []
+
+    def pair(t: ast.AST, v: Optional[ast.AST]) -> None:
+        if isinstance(t, ast.Name):
+            out.append((t.id, v))
+        elif isinstance(t, ast.Starred):
+            pair(t.value, None)
+        elif isinstance(t, (ast.Tuple, ast.List)):
+            if isinstance(v, (ast.Tuple, ast.List)) and len(v.elts) == len(t.elts) and not any(isinstance(x, ast.Starred) for x in list(t.elts) + list(v.elts)):
+                for a, b in zip(t.elts, v.elts):
+                    pair(a, b)
+            else:
+                for x in t.elts:
+                    pair(x, None)
+
+    if isinstance(st, ast.Assign):
+        for t in st.targets:
+            pair(t, st.value)
+    elif isinstance(st, ast.AnnAssign) and st.value is not None:
+        pair(st.target, st.value)
+    elif isinstance(st, ast.AugAssign):
+        pair(st.target, None)
+    return out
+
+
+def role_function(repo: Repo, rel: str, entry: str, has, what: str, **opts) -> Tuple[str, str, ast.AST]:
+    """(file, qualified name, normal form) of the function that plays a role below a stable entry point (a public
+    name callers use): the entry point itself when, with its private helpers inlined, it contains the construct
+    *has* recognises; otherwise the nearest function of its call graph that does (the code was moved into a
+    helper the normaliser does not inline: public, returning from inside try/except, in another module)."""
+    fn = repo.func(rel, entry)
+    nf0 = nfunc(repo, rel, entry, **opts)
+    if has(nf0):
+        return rel, entry, nf0
+    mod = repo.module(rel)
+    clo = repo.call_graph_closure([(mod, fn)])
+    for m, n, path in sorted(clo.values(), key=lambda v: (len(v[2]), v[2])):
+        if n is fn or not isinstance(n, FuncNode):
+            continue
+        qn = qualname_of(n)
+        try:
+            nf = nfunc(repo, m.rel, qn, **opts)
+        except Exception:
+            continue
+        if has(nf):
+            return m.rel, qn, nf
+    raise AnalysisError(f"{entry}: {what} not found in it or in the functions it calls")
+
+
+def _unwrap_iter(e: ast.AST) -> ast.AST:
+    """The iterable under lazy traversal wrappers: enumerate(x) / iter(x) / zip(x, ..) (first operand)."""
+    while isinstance(e, ast.Call) and isinstance(e.func, ast.Name) and e.func.id in ("enumerate", "iter", "zip") and e.args:
+        e = e.args[0]
+    return e
+
+
+def metadata_aliases(fn: ast.AST) -> Dict[str, str]:
+    """{local: message} for locals of *fn* every value of which is `<message>.metadata` (or `<message>.metadata or {}`)."""
+    vals: Dict[str, List[Optional[ast.AST]]] = {}
+    for st in walk_no_nested(fn):
+        for nm, v in _bindings(st):
+            vals.setdefault(nm, []).append(v)
+    out: Dict[str, str] = {}
+    for nm, vs in vals.items():
+        roots = set()
+        for v in vs:
+            if isinstance(v, ast.BoolOp) and isinstance(v.op, ast.Or) and len(v.values) == 2 and isinstance(v.values[1], ast.Dict) and not v.values[1].keys:
+                v = v.values[0]
+            roots.add(v.value.id if isinstance(v, ast.Attribute) and v.attr == "metadata" and isinstance(v.value, ast.Name) else None)
+        if len(roots) == 1 and None not in roots:
+            out[nm] = roots.pop()  # type: ignore[assignment]
+    return out
+
+
+def _reads_metadata(e: ast.AST, msg: str, aliases: Optional[Dict[str, str]] = None) -> List[Tuple[object, ast.AST]]:
+    """[(constant key, node)] for every `<msg>.metadata.get(K ..)` / `<msg>.metadata[K]` inside *e* (the metadata
+    mapping may be named by a local first)."""
+    recv = {f"{msg}.metadata"} | {a for a, m in (aliases or {}).items() if m == msg}
+    out: List[Tuple[object, ast.AST]] = []
+    for c in ast.walk(e):
+        if isinstance(c, ast.Call) and call_attr(c) == "get" and dotted_name(c.func.value) in recv and c.args and isinstance(c.args[0], ast.Constant):  # type: ignore[attr-defined]
+            out.append((c.args[0].value, c))
+        elif isinstance(c, ast.Subscript) and dotted_name(c.value) in recv and isinstance(c.slice, ast.Constant):
+            out.append((c.slice.value, c))
+    return out
+
+
+class Leaf:
+    """One value a local can hold at a use: *kind* is 'message' (computed from this message), 'fresh' (a
+    constant / an object built on the spot from nothing that outlives the job), 'outside' (bound outside the job
+    body: shared between jobs) or 'unknown'; *conds* are the (test, polarity, node) choices of conditional
+    expressions that select it, *site* the CFG node of the assignment that binds it."""
+
+    def __init__(self, expr: ast.AST, at: int, site: Optional[int], conds: tuple, kind: str):
+        self.expr, self.at, self.site, self.conds, self.kind = expr, at, site, conds, kind
+
+
+class Provenance:
+    """Where the value of a local of the job body comes from, decided on the CFG with reaching definitions (not on
+    the position or the number of assignments): every definition that can reach the use is followed through
+    locals, tuple unpacking, conditional expressions and `a or b` down to the expressions that produce the value."""
+
+    def __init__(self, g: CFG, loop: ast.AST, msg: str):
+        self.g, self.loop, self.msg = g, loop, msg
+        self.inside = {id(x) for x in ast.walk(loop)}
+        self.meta_keys: List[object] = []
+        self.aliases = metadata_aliases(g.func)
+
+    def alts(self, e: ast.AST, at: int, conds: tuple = (), site: Optional[int] = None, depth: int = 0) -> List[Leaf]:
+        if depth > 8:
+            return [Leaf(e, at, site, conds, "unknown")]
+        if isinstance(e, ast.Name) and e.id != self.msg:
+            defs = reaching_defs(self.g, e.id, at)
+            if not defs:
+                return [Leaf(e, at, site, conds, "outside")]  # parameter / global: lives longer than one job
+            out: List[Leaf] = []
+            for d in defs:
+                if id(d.ast) not in self.inside or d.ast is self.loop:
+                    out.append(Leaf(e, at, d.id, conds, "outside"))
+                    continue
+                if d.kind != "stmt":
+                    out.append(Leaf(e, at, d.id, conds, "unknown"))
+                    continue
+                for nm, v in _bindings(d.ast):
+                    if nm != e.id:
+                        continue
+                    if v is None:
+                        rhs = getattr(d.ast, "value", None)
+                        out.append(Leaf(rhs or e, d.id, d.id, conds, self.kind(rhs, d.id, depth + 1) if rhs is not None else "unknown"))
+                    else:
+                        out.extend(self.alts(v, d.id, conds, d.id, depth + 1))
+            return out
+        if isinstance(e, ast.IfExp):
+            return (self.alts(e.body, at, conds + ((e.test, True, at),), site, depth + 1)
+                    + self.alts(e.orelse, at, conds + ((e.test, False, at),), site, depth + 1))
+        if isinstance(e, ast.BoolOp) and isinstance(e.op, ast.Or):
+            out = self.alts(e.values[0], at, conds, site, depth + 1)
+            for i in range(1, len(e.values)):
+                out.extend(self.alts(e.values[i], at, conds + ((e.values[i - 1], "falsy", at),), site, depth + 1))
+            return out
+        return [Leaf(e, at, site, conds, self.kind(e, at, depth))]
+
+    def kind(self, e: ast.AST, at: int, depth: int = 0) -> str:
+        reads = any(isinstance(x, ast.Name) and x.id == self.msg for x in ast.walk(e))
+        self.meta_keys.extend(k for k, _n in _reads_metadata(e, self.msg, self.aliases))
+        for nm in sorted(_free_names(e, self.msg)):
+            sub = self.alts(ast.Name(id=nm, ctx=ast.Load()), at, depth=depth + 1)
+            if any(l.kind in ("outside", "unknown") for l in sub):
+                return "outside" if any(l.kind == "outside" for l in sub) else "unknown"
+            if any(l.kind == "message" for l in sub):
+                reads = True
+        if reads:
+            return "message"
+        if isinstance(e, (ast.Constant, ast.Call, ast.Dict, ast.List, ast.Tuple, ast.Set, ast.JoinedStr)):
+            return "fresh"
+        return "unknown"
+
+    def field_of(self, x: ast.AST, at: int) -> Optional[str]:
+        """The attribute of this message *x* denotes at node *at*: `<msg>.<attr>` or a local every reaching
+        definition of which is exactly that read."""
+        if isinstance(x, ast.Attribute) and isinstance(x.value, ast.Name) and x.value.id == self.msg:
+            return x.attr
+        if isinstance(x, ast.Name) and x.id != self.msg:
+            attrs = set()
+            for d in reaching_defs(self.g, x.id, at):
+                vals = [v for nm, v in _bindings(d.ast) if nm == x.id] if d.kind == "stmt" and id(d.ast) in self.inside else [None]
+                for v in vals:
+                    attrs.add(self.field_of(v, d.id) if isinstance(v, ast.Attribute) else None)
+            if len(attrs) == 1:
+                return attrs.pop()
+        return None
+
+    def fields_read(self, leaves: List[Leaf]) -> Set[str]:
+        return {x.attr for l in leaves if l.kind == "message" for x in ast.walk(l.expr)
+                if isinstance(x, ast.Attribute) and isinstance(x.value, ast.Name) and x.value.id == self.msg}
+
+    def none_guarded(self, leaf: Leaf, fields: Set[str]) -> bool:
+        """The leaf (a default) is selected only where one of the message *fields* is known to be None: by the
+        conditional expression that chooses it, or by a branch edge that dominates the assignment binding it."""
+        def atom_at(at: int):
+            def atom(x: ast.AST) -> Optional[bool]:
+                if isinstance(x, ast.Compare) and len(x.ops) == 1 and isinstance(x.ops[0], (ast.Is, ast.IsNot, ast.Eq, ast.NotEq)):
+                    l, r = x.left, x.comparators[0]
+                    if isinstance(l, ast.Constant) and l.value is None:
+                        l, r = r, l
+                    if isinstance(r, ast.Constant) and r.value is None and self.field_of(l, at) in fields:
+                        return isinstance(x.ops[0], (ast.Is, ast.Eq))
+                return None
+            return atom
+
+        for test, pol, at in leaf.conds:
+            if pol != "falsy" and ("T" if pol else "F") in edges_guaranteeing(test, atom_at(at)):
+                return True
+        if leaf.site is not None:
+            for n in self.g.nodes:
+                if n.kind in ("if", "while") and n.part is not None:
+                    for lab in edges_guaranteeing(n.part, atom_at(n.id)):
+                        if self.g.dominated_by_edge(leaf.site, n.id, lab):
+                            return True
+        return False
+
+
+def job_loops_of(fn: ast.AST) -> List[Tuple[ast.AST, str, List[ast.AST]]]:
+    """(loop statement, message local, binding statements) for every loop of *fn* that takes messages one by one
+    and reads their metadata: `for <.. msg ..> in <iterable>` (the for statement binds the message) or a while
+    loop whose body binds `msg = next(<iterator>)`."""
+    out: List[Tuple[ast.AST, str, List[ast.AST]]] = []
+
+    def reads_md(scope: ast.AST, nm: str) -> bool:
+        return any(isinstance(x, ast.Attribute) and x.attr == "metadata" and isinstance(x.value, ast.Name) and x.value.id == nm for x in ast.walk(scope))
+
+    for n in walk_no_nested(fn):
+        if isinstance(n, ast.For):
+            for t in ast.walk(n.target):
+                if isinstance(t, ast.Name) and reads_md(n, t.id):
+                    out.append((n, t.id, [n]))
+        elif isinstance(n, ast.While):
+            by_name: Dict[str, List[ast.AST]] = {}
+            for st in ast.walk(n):
+                if isinstance(st, ast.Assign) and isinstance(st.value, ast.Call) and isinstance(st.value.func, ast.Name) and st.value.func.id == "next":
+                    for nm, _v in _bindings(st):
+                        if reads_md(n, nm) and not any(isinstance(a, (ast.For, ast.While)) and a is not n and any(a is x for x in ast.walk(n)) for a in ancestors(st) if a is not n and a is not fn):
+                            by_name.setdefault(nm, []).append(st)
+            for nm, sts in by_name.items():
+                out.append((n, nm, sts))
+    return out
 
 
 def logger_receivers(repo: Repo, mod, fn: ast.AST) -> Set[str]:
@@ -117,6 +349,26 @@ def fstring_template(e: Optional[ast.AST]) -> Optional[Tuple[str, List[str]]]:
                 txt += "{}"
                 names.append(dotted_name(v.value) or "?")
         return txt, names
+    # the same string spelled with str.format / % / +
+    if isinstance(e, ast.Call) and call_attr(e) == "format" and isinstance(e.func, ast.Attribute) and isinstance(e.func.value, ast.Constant) and isinstance(e.func.value.value, str) and not e.keywords:
+        txt = e.func.value.value
+        if txt.count("{}") == len(e.args) and txt.count("{") == len(e.args):
+            return txt, [dotted_name(a) or "?" for a in e.args]
+    if isinstance(e, ast.BinOp) and isinstance(e.op, ast.Mod) and isinstance(e.left, ast.Constant) and isinstance(e.left.value, str):
+        args = list(e.right.elts) if isinstance(e.right, ast.Tuple) else [e.right]
+        if e.left.value.count("%s") == len(args) == e.left.value.count("%") and "{" not in e.left.value:
+            return e.left.value.replace("%s", "{}"), [dotted_name(a) or "?" for a in args]
+    if isinstance(e, ast.BinOp) and isinstance(e.op, ast.Add):
+        parts = []
+        for side in (e.left, e.right):
+            t = fstring_template(side)
+            if t is None:
+                inner = side.args[0] if isinstance(side, ast.Call) and isinstance(side.func, ast.Name) and side.func.id == "str" and len(side.args) == 1 else side
+                if dotted_name(inner) is None:
+                    return None
+                t = ("{}", [dotted_name(inner)])
+            parts.append(t)
+        return parts[0][0] + parts[1][0], parts[0][1] + parts[1][1]
     return None
 
 
@@ -183,6 +435,7 @@ def job_may_raise(repo: Repo, mod, fn: ast.AST, scope: ast.AST, whole: bool = Fa
     call in a handler may raise like anywhere else: a failure path that fails before its publish leaves the
     job without a status."""
     loggers = logger_receivers(repo, mod, fn)
+    md_alias = metadata_aliases(fn)
     handler_stmts = handler_statement_ids(scope)
     ctx_calls = status_context_calls(repo, mod, fn)
     summaries: Dict[int, bool] = {}
@@ -204,7 +457,9 @@ def job_may_raise(repo: Repo, mod, fn: ast.AST, scope: ast.AST, whole: bool = Fa
                 d = call_name(n) or ""
                 if isinstance(n.func, ast.Attribute) and n.func.attr in LOG_METHODS and dotted_name(n.func.value) in loggers:
                     continue
-                if d in TOTAL_CALLS or (d.endswith(".metadata.get") and d.count(".") == 2):
+                if isinstance(n.func, ast.Attribute) and n.func.attr == "format" and isinstance(n.func.value, ast.Constant) and isinstance(n.func.value.value, str):
+                    continue  # formatting a literal template: no more than the f-string spelling of the same text does
+                if d in TOTAL_CALLS or (d.endswith(".metadata.get") and d.count(".") == 2) or (d.endswith(".get") and d[:-4] in md_alias):
                     continue
                 if lenient and (id(n) in ctx_calls or is_status_publish(n, fn=fn) or sealed_helper(n)):
                     continue
@@ -369,17 +624,19 @@ def reach_with_flags(g: CFG, starts: List[int], blocked: Set[int], sealed: Set[i
 
 
 def run(repo: Repo, R: Report) -> None:
-    wmod = repo.module(W)
-    qmod = repo.module(Q)
-    repo.func(W, "worker_loop")  # anchor
-    # "temps": locals of worker_loop keep their names (the job id variable is an anchor of D1/D4); the locals of
+    repo.func(W, "worker_loop")  # anchor: the public entry point of a worker
+    # The function that drains the job subscription (worker_loop itself, or wherever its body was moved to).
+    # "temps": its locals keep their names (the job id variable is an anchor of D1/D4); the locals of
     # inlined helpers are substituted, and a named channel / metadata dict is looked through by _deref
-    wl = nfunc(repo, W, "worker_loop")
-    # every function of the worker module in normal form (status publishes are looked for in all of them)
+    wrel, wqn, wl = role_function(repo, W, "worker_loop", lambda f: bool(job_loops_of(f)), "message loop (`for msg in <subscription>` reading msg.metadata)")
+    jobs = job_loops_of(wl)
+    wmod = repo.module(wrel)
+    # every function of the worker module(s) in normal form (status publishes are looked for in all of them)
     wfuncs: List[ast.AST] = []
-    for qn, node in wmod.defs.items():
-        if isinstance(node, FuncNode):
-            wfuncs.append(wl if qn == "worker_loop" else nfunc(repo, W, qn, copyprop="all"))
+    for wm in ([wmod] if wrel == W else [repo.module(W), wmod]):
+        for qn, node in wm.defs.items():
+            if isinstance(node, FuncNode):
+                wfuncs.append(wl if (wm.rel, qn) == (wrel, wqn) else nfunc(repo, wm.rel, qn, copyprop="all"))
     R.assume(
         "logger calls, dict.get on message metadata, isinstance/all and the statements of the worker's failure handler up to its publish do not raise",
         "exactly-once hand-over of each message is the in-memory transport's contract (property C14)",
@@ -390,30 +647,44 @@ def run(repo: Repo, R: Report) -> None:
 
     # ------------------------------------------------------------------ D1
     r_pub = R.rule("C15-D1-status-on-every-exit", "from picking up a job message to every way of leaving that iteration (next message, loop exit, escaping exception) at least one jobs.<job_id>.status publish for this message's job id is on the path", 1)
-    job_loops = [n for n in walk_no_nested(wl) if isinstance(n, ast.For) and isinstance(n.target, ast.Name)
-                 and any(isinstance(c, ast.Call) and call_attr(c) == "get" and dotted_name(c.func.value) == f"{n.target.id}.metadata" for c in ast.walk(n))]
-    if not job_loops:
-        raise AnalysisError("worker_loop: message loop (`for msg in sub`) not found")
-    loop = job_loops[0]
-    msg = loop.target.id
-    # job id variable: X = msg.metadata.get("job_id") [or default]
-    job_var = None
-    job_key = None
-    for st in loop.body:
-        if isinstance(st, ast.Assign) and len(st.targets) == 1 and isinstance(st.targets[0], ast.Name):
-            for c in ast.walk(st.value):
-                if isinstance(c, ast.Call) and call_attr(c) == "get" and dotted_name(c.func.value) == f"{msg}.metadata" and c.args and isinstance(c.args[0], ast.Constant) and "job" in str(c.args[0].value):
-                    job_var = st.targets[0].id
-                    job_key = c.args[0].value
-        if job_var:
-            break
-    if job_var is None:
-        raise AnalysisError("worker_loop: job id extraction from msg.metadata not found")
-    redefs = [n for n in ast.walk(loop) if isinstance(n, ast.Name) and n.id == job_var and isinstance(n.ctx, ast.Store)]
     r_corr = R.rule("C15-D4-correlation", "job id, channel templates, metadata/context keys and per-job values agree hop by hop between enqueue, run_forever and worker_loop, each a single definition taken from this job's message", 8)
-    R.check(len(redefs) == 1, r_corr, W, "worker_loop", f"job id = {msg}.metadata.get({job_key!r})", "job id variable is redefined inside the job body (status could be published for another job)", loop.lineno)
-
+    loop, msg, bind_stmts = jobs[0]
     g = CFG(wl, may_raise=job_may_raise(repo, wmod, wl, loop))
+    prov = Provenance(g, loop, msg)
+    # job id variable, by role: the local the status channel of this job is named after (in a publish of the job
+    # body or handed to a helper that publishes), every value of which is read from this message's metadata
+    # under one key or is a constant standing in for a missing id
+    cand: Dict[str, List[int]] = {}
+    for n in g.nodes:
+        if n.ast is None or n.kind != "stmt" or id(n.ast) not in prov.inside:
+            continue
+        for c in calls_in(n.ast):
+            nm = None
+            if is_status_publish(c, None, wl):
+                nm = channel_template(c, wl)[1][0]  # type: ignore[index]
+            else:
+                h = helper_always_publishes(repo, wmod, c)
+                if h is not None:
+                    a = c.args[h[1]] if h[1] < len(c.args) else kwarg(c, h[0].args.args[h[1]].arg)
+                    nm = a.id if isinstance(a, ast.Name) else None
+            if nm and nm.isidentifier():
+                cand.setdefault(nm, []).append(n.id)
+    job_vars: Set[str] = set()
+    job_keys: Set[object] = set()
+    for nm, uses in sorted(cand.items()):
+        prov.meta_keys = []
+        leaves = [l for u in uses for l in prov.alts(ast.Name(id=nm, ctx=ast.Load()), u)]
+        if not any(l.kind == "message" for l in leaves):
+            continue
+        job_vars.add(nm)
+        job_keys |= set(prov.meta_keys)
+        bad = [l for l in leaves if l.kind not in ("message", "fresh") or (l.kind == "fresh" and not isinstance(l.expr, ast.Constant))]
+        R.check(not bad and len(set(prov.meta_keys)) == 1, r_corr, wrel, wqn, f"job id `{nm}` = {msg}.metadata[{sorted(map(str, set(prov.meta_keys)))}]",
+                "a status is published for a job id that is not (only) the id read from this message's metadata: a value bound outside the job body or computed from something else reaches the publish (status could be published for another job)",
+                getattr(bad[0].expr, "lineno", loop.lineno) if bad else loop.lineno)
+    if not job_vars:
+        raise AnalysisError(f"{wqn}: job id extraction from {msg}.metadata (the id the status channel is named after) not found")
+    job_key = sorted(job_keys, key=str)[0]
 
     def publishes(n) -> Optional[str]:
         """'publish': the statement publishes this job's status (unless it raises); 'sealed': a summarised helper
@@ -421,19 +692,21 @@ def run(repo: Repo, R: Report) -> None:
         if n.ast is None or n.kind != "stmt":
             return None
         for c in calls_in(n.ast):
-            if is_status_publish(c, job_var, wl):
+            if is_status_publish(c, None, wl) and channel_template(c, wl)[1][0] in job_vars:  # type: ignore[index]
                 return "publish"
             h = helper_always_publishes(repo, wmod, c)
             if h is not None:
                 fn, idx, raises_unpublished, _before = h
                 a = c.args[idx] if idx < len(c.args) else kwarg(c, fn.args.args[idx].arg)
-                if isinstance(a, ast.Name) and a.id == job_var:
+                if isinstance(a, ast.Name) and a.id in job_vars:
                     return "publish" if raises_unpublished else "sealed"
         return None
 
-    heads = g.nodes_for(loop)
+    # the nodes that bind the next message (the for statement, or `msg = next(it)`): a job starts on their normal
+    # continuation and the iteration is over when one of them is reached again
+    heads = [nid for st in bind_stmts for nid in g.nodes_for(st)]
     if not heads:
-        raise AnalysisError("worker_loop: loop header not in CFG")
+        raise AnalysisError(f"{wqn}: loop header not in CFG")
     kinds = {n.id: publishes(n) for n in g.nodes}
     pub_nodes = {i for i, k in kinds.items() if k}
     sealed_nodes = {i for i, k in kinds.items() if k == "sealed"}
@@ -442,7 +715,7 @@ def run(repo: Repo, R: Report) -> None:
     in_handler = handler_statement_ids(loop)
     total_bad = 0
     for h in heads:
-        starts = [t for t, lab in g.succ[h] if lab == "T"]
+        starts = [t for t, lab in g.succ[h] if lab == ("T" if g.nodes[h].kind == "for" else "n")]
         seen, path_to = reach_with_flags(g, starts, pub_nodes, sealed_nodes, flags, {BASE})
         for target, label in ((h, "next message"), (g.ret_exit, "worker returns"), (g.exc_exit, "exception escapes the worker")):
             if target in seen:
@@ -453,49 +726,151 @@ def run(repo: Repo, R: Report) -> None:
                 failed = [g.nodes[steps[i - 1][0]] for i in range(1, len(steps)) if steps[i][1] == EXC and g.nodes[steps[i - 1][0]].ast is not None
                           and (id(g.nodes[steps[i - 1][0]].ast) in in_handler or id(g.nodes[steps[i - 1][0]].part) in in_handler)]
                 if failed:
-                    R.violation(r_pub, W, "worker_loop", f"job body -> {label} without status publish: failure path raises at `{norm(failed[-1].part if failed[-1].part is not None else failed[-1].ast)[:90]}`",
+                    R.violation(r_pub, wrel, wqn, f"job body -> {label} without status publish: failure path raises at `{norm(failed[-1].part if failed[-1].part is not None else failed[-1].ast)[:90]}`",
                                 "a statement on the failure path (exception handler of the job body, helpers inlined) can itself raise before the failure status is published "
                                 "(only logger calls, total builtins, building the status context and the publish are taken not to raise): the exception leaves the handler, "
                                 "no jobs.<id>.status message is sent and the failing job's Future never completes", failed[-1].line or loop.lineno, path)
                 else:
-                    R.violation(r_pub, W, "worker_loop", f"job body -> {label} without status publish via `{_last_stmt(path)}`",
+                    R.violation(r_pub, wrel, wqn, f"job body -> {label} without status publish via `{_last_stmt(path)}`",
                                 "a picked-up job can leave its iteration without any jobs.<id>.status message: the caller's Future never completes", loop.lineno, path)
     if total_bad == 0:
-        R.ok(r_pub, W, "worker_loop", f"{n_pub_nodes} publishing statement(s) cover all exits of the job body", "", loop.lineno)
+        R.ok(r_pub, wrel, wqn, f"{n_pub_nodes} publishing statement(s) cover all exits of the job body", "", loop.lineno)
     if n_pub_nodes == 0:
         raise AnalysisError("worker_loop: no status publish recognised")
 
+    # ------------------------------------------------------------------ master side: anchors by role
+    RUN, ENQ = "QueueSemantivaOrchestrator.run_forever", "QueueSemantivaOrchestrator.enqueue"
+    repo.func(Q, RUN)  # anchors: the public API of the master
+    repo.func(Q, ENQ)
+    rf = nfunc(repo, Q, RUN, copyprop="all")
+
+    def queue_puts(fn: ast.AST) -> List[ast.Call]:
+        """`<queue>.put(<tuple>)`: the hand-over of a job from enqueue to the master loop."""
+        return [c for c in calls_in(fn) if call_attr(c) == "put" and c.args and isinstance(_deref(fn, c.args[0]), ast.Tuple)]
+
+    def sub_stores(fn: ast.AST) -> List[ast.Assign]:
+        return [n for n in walk_no_nested(fn) if isinstance(n, ast.Assign) and any(isinstance(t, ast.Subscript) and dotted_name(t.value) for t in n.targets)]
+
+    erel, eqn, enq = role_function(repo, Q, ENQ, lambda f: bool(queue_puts(f)) and bool(sub_stores(f)), "registration of the pending future and the queue put", copyprop="all")
+    # the pending map, by role: the mapping in which enqueue stores, under the job id, the future it returns
+    rets = [dotted_name(n.value) for n in walk_no_nested(enq) if isinstance(n, ast.Return) and n.value is not None and not (isinstance(n.value, ast.Constant) and n.value.value is None)]
+    fut_stores = [n for n in sub_stores(enq) if dotted_name(n.value) is not None and dotted_name(n.value) in rets]
+    if not fut_stores:
+        fut_stores = [n for n in sub_stores(enq) if any(dotted_name(t.value) == "self.pending_futures" for t in n.targets if isinstance(t, ast.Subscript))]
+    if not fut_stores:
+        raise AnalysisError("enqueue: pending store or queue put not found")
+    pend = next(dotted_name(t.value) for t in fut_stores[0].targets if isinstance(t, ast.Subscript))
+    put_call = queue_puts(enq)[0]
+    queue_name = dotted_name(put_call.func.value)  # type: ignore[attr-defined]
+
+    def future_ref(fn: ast.AST, e: ast.AST, maps: Set[str]) -> Optional[Tuple[str, Optional[str], str]]:
+        """(map, key, how) when *e* denotes the pending future of a key: `<map>[k]`, or a local every value of
+        which is `<map>[k]` / `<map>.get(k ..)` / `<map>.pop(k ..)` ('pop': fetching it removes the entry)."""
+        def direct(x: ast.AST) -> Optional[Tuple[str, Optional[str], str]]:
+            if isinstance(x, ast.Subscript) and dotted_name(x.value) and (not maps or dotted_name(x.value) in maps):
+                return dotted_name(x.value), dotted_name(x.slice), "subscript"  # type: ignore[return-value]
+            if isinstance(x, ast.Call) and call_attr(x) in ("get", "pop") and x.args and dotted_name(x.func.value) and (not maps or dotted_name(x.func.value) in maps):  # type: ignore[attr-defined]
+                return dotted_name(x.func.value), dotted_name(x.args[0]), call_attr(x)  # type: ignore[attr-defined,return-value]
+            return None
+
+        if isinstance(e, ast.Name):
+            vals = [v for st in walk_no_nested(fn) for nm, v in _bindings(st) if nm == e.id]
+            refs = [direct(v) if v is not None else None for v in vals]
+            if refs and all(r is not None for r in refs) and len({(r[0], r[1]) for r in refs}) == 1:  # type: ignore[index]
+                return refs[0][0], refs[0][1], ("pop" if any(r[2] == "pop" for r in refs) else "local")  # type: ignore[index]
+            return None
+        return direct(e)
+
+    def completions(fn: ast.AST, maps: Set[str], names=("set_result", "set_exception")):
+        """[(call, (map, key, how))] for `<pending future>.set_result(..)` / `.set_exception(..)` in *fn*."""
+        out = []
+        for c in calls_in(fn):
+            if isinstance(c.func, ast.Attribute) and c.func.attr in names:
+                r = future_ref(fn, c.func.value, maps)
+                if r is not None:
+                    out.append((c, r))
+        return out
+
     # ------------------------------------------------------------------ D2
-    repo.func(Q, "QueueSemantivaOrchestrator.run_forever")  # anchor
-    rf = nfunc(repo, Q, "QueueSemantivaOrchestrator.run_forever", copyprop="all")
     r_res = R.rule("C15-D2-resolve-once", "for a status message of a pending job the master completes the future exactly once (set_result xor set_exception) under the pending-membership guard and then removes the entry; a failure path exists and its marker test is true for every value a worker failure can write", 5)
-    gq = CFG(rf, may_raise=lambda part: set())
-    pend = "self.pending_futures"
+    # the function that completes the futures: run_forever, or wherever that code was moved to; the pending map is
+    # there the attribute enqueue registers in, or a parameter the caller binds to it
+    def resolves(f: ast.AST) -> bool:
+        params = {a.arg for a in f.args.posonlyargs + f.args.args + f.args.kwonlyargs}  # type: ignore[attr-defined]
+        return bool(completions(f, {pend} | params))
+
+    try:
+        srel, sqn, sf = role_function(repo, Q, RUN, resolves, "completion of pending futures", copyprop="all")
+    except AnalysisError:
+        raise AnalysisError("run_forever: no set_result/set_exception on pending futures found")
+    sparams = [a.arg for a in sf.args.posonlyargs + sf.args.args + sf.args.kwonlyargs]  # type: ignore[attr-defined]
+    comps = completions(sf, {pend} | set(sparams))
+    maps_used = {r[0] for _c, r in comps}
+    for mname in sorted(maps_used - {pend}):
+        # a parameter: every caller in the master loop binds it to the pending map
+        idx = sparams.index(mname)
+        sites = [c for c in calls_in(rf, include_nested=True) if (call_name(c) or "").split(".")[-1] == sf.name]  # type: ignore[attr-defined]
+        for c in sites:
+            off = 1 if sparams and sparams[0] in ("self", "cls") and isinstance(c.func, ast.Attribute) else 0
+            a = c.args[idx - off] if 0 <= idx - off < len(c.args) else kwarg(c, mname)
+            R.check(a is not None and dotted_name(_deref(rf, a)) == pend, r_res, Q, RUN, norm(c)[:80] + f" [{mname}]", f"the futures are completed in a mapping that is not the one enqueue registers them in ({pend})", c.lineno)
+        if not sites:
+            raise AnalysisError(f"{sqn}: call site binding `{mname}` to the pending map not found in run_forever")
+    gq = CFG(sf, may_raise=lambda part: set())
+    comp_ids = {id(c): r for c, r in comps}
+    fut_locals = {c.func.value.id: r for c, r in comps if isinstance(c.func.value, ast.Name)}  # type: ignore[attr-defined]
 
     def is_set(n, names=("set_result", "set_exception")) -> bool:
         if n.ast is None or n.kind != "stmt":
             return False
-        return any(isinstance(c.func, ast.Attribute) and c.func.attr in names and isinstance(c.func.value, ast.Subscript) and dotted_name(c.func.value.value) == pend for c in calls_in(n.ast))
+        return any(id(c) in comp_ids and c.func.attr in names for c in calls_in(n.ast))  # type: ignore[attr-defined]
 
     def is_remove(n) -> bool:
         if n.ast is None or n.kind != "stmt":
             return False
-        if isinstance(n.ast, ast.Delete) and any(isinstance(t, ast.Subscript) and dotted_name(t.value) == pend for t in n.ast.targets):
+        if isinstance(n.ast, ast.Delete) and any(isinstance(t, ast.Subscript) and dotted_name(t.value) in maps_used for t in n.ast.targets):
             return True
-        return any(call_attr(c) == "pop" and isinstance(c.func, ast.Attribute) and dotted_name(c.func.value) == pend for c in calls_in(n.ast))
+        return any(call_attr(c) == "pop" and isinstance(c.func, ast.Attribute) and dotted_name(c.func.value) in maps_used for c in calls_in(n.ast))
 
-    guards = [n for n in gq.nodes if n.kind == "if" and isinstance(n.part, ast.Compare) and len(n.part.ops) == 1 and isinstance(n.part.ops[0], ast.In) and dotted_name(n.part.comparators[0]) == pend]
+    def pending_atom(x: ast.AST) -> Optional[bool]:
+        """`k in <pending>` / `<future local> is not None` / `<future local>`: the job has a pending future."""
+        if isinstance(x, ast.Compare) and len(x.ops) == 1:
+            if isinstance(x.ops[0], (ast.In, ast.NotIn)) and dotted_name(x.comparators[0]) in maps_used:
+                return isinstance(x.ops[0], ast.In)
+            if isinstance(x.ops[0], (ast.Is, ast.IsNot)) and isinstance(x.comparators[0], ast.Constant) and x.comparators[0].value is None and isinstance(x.left, ast.Name) and x.left.id in fut_locals:
+                return isinstance(x.ops[0], ast.IsNot)
+        if isinstance(x, ast.Name) and x.id in fut_locals:
+            return True
+        return None
+
+    def guard_key(x: ast.AST) -> Optional[str]:
+        for y in ast.walk(x):
+            if isinstance(y, ast.Compare) and len(y.ops) == 1 and isinstance(y.ops[0], (ast.In, ast.NotIn)) and dotted_name(y.comparators[0]) in maps_used:
+                return dotted_name(y.left)
+            if isinstance(y, ast.Name) and y.id in fut_locals:
+                return fut_locals[y.id][1]
+        return None
+
+    guards = [(n, lab) for n in gq.nodes if n.kind in ("if", "while") and n.part is not None for lab in sorted(edges_guaranteeing(n.part, pending_atom))]
     set_nodes = [n for n in gq.nodes if is_set(n)]
     if not set_nodes:
         raise AnalysisError("run_forever: no set_result/set_exception on pending futures found")
     if not guards:
-        R.violation(r_res, Q, "QueueSemantivaOrchestrator.run_forever", "if jid in self.pending_futures", "future completion is not guarded by membership in pending_futures (a duplicate or unknown status raises / completes the wrong future)", rf.lineno)
-    for gd in guards:
-        jid = dotted_name(gd.part.left)
-        starts = [t for t, lab in gq.succ[gd.id] if lab == "T"]
-        join = [t for t, lab in gq.succ[gd.id] if lab == "F"]
-        saved = {j: gq.succ[j] for j in join}
-        for j in join:
+        R.violation(r_res, srel, sqn, "if jid in self.pending_futures", "future completion is not guarded by membership in pending_futures (a duplicate or unknown status raises / completes the wrong future)", sf.lineno)
+    popped = any(r[2] == "pop" for _c, r in comps)
+    jid = None
+    for gd, glab in guards:
+        jid = guard_key(gd.part)
+        # the handling of one status message: the innermost loop around the guard, or the whole function
+        scope = next((a for a in ancestors(gd.ast) if isinstance(a, (ast.For, ast.While))), None) if gd.ast is not sf else None
+        if scope is not None and not any(scope is x for x in ast.walk(sf)):
+            scope = None
+        inside = {id(x) for x in ast.walk(scope)} if scope is not None else None
+        ends = [n.id for n in gq.nodes if n.kind in ("ret_exit", "exc_exit", "base_exit") or (scope is not None and n.ast is scope)
+                or (inside is not None and n.ast is not None and id(n.ast) not in inside)]
+        starts = [t for t, lab in gq.succ[gd.id] if lab == glab]
+        saved = {j: gq.succ[j] for j in ends}
+        for j in ends:
             gq.succ[j] = []
         try:
             c_set = gq.counts(starts, is_set, count_start=True)
@@ -503,68 +878,82 @@ def run(repo: Repo, R: Report) -> None:
         finally:
             for j, v in saved.items():
                 gq.succ[j] = v
-        got_set = set().union(*[c_set.get(j, set()) for j in join]) if join else set()
-        got_rm = set().union(*[c_rm.get(j, set()) for j in join]) if join else set()
-        R.check(got_set == {1}, r_res, Q, "QueueSemantivaOrchestrator.run_forever", norm(gd.ast) + " -> set_result/set_exception",
+        reached = [j for j in ends if j in c_set]
+        got_set = set().union(*[c_set.get(j, set()) for j in reached]) if reached else set()
+        got_rm = set().union(*[c_rm.get(j, set()) for j in reached]) if reached else set()
+        R.check(got_set == {1}, r_res, srel, sqn, norm(gd.part) + " -> set_result/set_exception",
                 f"a pending future is completed {sorted(got_set)} time(s) on some path of the status block (0 = caller waits forever, 2 = InvalidStateError)", gd.line)
-        R.check(got_rm == {1}, r_res, Q, "QueueSemantivaOrchestrator.run_forever", norm(gd.ast) + " -> remove entry",
+        R.check(got_rm == ({0} if popped else {1}), r_res, srel, sqn, norm(gd.part) + " -> remove entry",
                 f"the pending entry is removed {sorted(got_rm)} time(s) after completion (0 = a duplicate status completes it again)", gd.line)
         # keys used agree with the guard variable
+        for c, r in comps:
+            R.check(r[1] == jid, r_res, srel, sqn, norm(c)[:80] + " [key]", "the completed future is not the one looked up by the guard's job id", c.lineno)
+    # all set_* nodes are dominated by a guard edge
+    if guards:
         for n in set_nodes:
-            for c in calls_in(n.ast):
-                if isinstance(c.func, ast.Attribute) and c.func.attr in ("set_result", "set_exception") and isinstance(c.func.value, ast.Subscript):
-                    k = dotted_name(c.func.value.slice)
-                    R.check(k == jid, r_res, Q, "QueueSemantivaOrchestrator.run_forever", norm(c)[:80] + " [key]", "the completed future is not the one looked up by the guard's job id", c.lineno)
-        # all set_* nodes are dominated by the guard
-        for n in set_nodes:
-            R.check(gq.dominated_by_edge(n.id, gd.id, "T"), r_res, Q, "QueueSemantivaOrchestrator.run_forever", norm(n.ast)[:80] + " [guarded]",
+            R.check(any(gq.dominated_by_edge(n.id, gd.id, glab) for gd, glab in guards), r_res, srel, sqn, norm(n.ast)[:80] + " [guarded]",
                     "future completion reachable without the pending-membership guard", n.line)
+    guard_nodes = [gd for gd, _l in guards]
     # failure path and marker agreement
     exc_nodes = [n for n in gq.nodes if is_set(n, ("set_exception",))]
     res_nodes = [n for n in gq.nodes if is_set(n, ("set_result",))]
     if not exc_nodes:
-        R.violation(r_res, Q, "QueueSemantivaOrchestrator.run_forever", "set_exception", "the master has no exceptional completion: a failing job leaves the caller waiting forever", rf.lineno)
+        R.violation(r_res, srel, sqn, "set_exception", "the master has no exceptional completion: a failing job leaves the caller waiting forever", sf.lineno)
     else:
         # marker: name tested on the branch selecting set_exception, read from msg.metadata[<key>]
         marker_key = None
         marker_var = None
         test_kind = None
+        def marker_read(e: ast.AST):
+            for c in ast.walk(e):
+                if isinstance(c, ast.Call) and call_attr(c) == "get" and c.args and isinstance(c.args[0], ast.Constant) and "metadata" in ast.unparse(c.func):
+                    return c.args[0].value, c
+                if isinstance(c, ast.Subscript) and "metadata" in ast.unparse(c.value) and isinstance(c.slice, ast.Constant):
+                    return c.slice.value, c
+            return None
+
         for n in gq.nodes:
-            if n.kind == "if" and n.part is not None and any(gq.dominated_by_edge(e.id, n.id, "T") for e in exc_nodes) and n not in guards:
-                def marker_read(e: ast.AST):
-                    for c in ast.walk(e):
-                        if isinstance(c, ast.Call) and call_attr(c) == "get" and c.args and isinstance(c.args[0], ast.Constant) and "metadata" in ast.unparse(c.func):
-                            return c.args[0].value, c
-                        if isinstance(c, ast.Subscript) and "metadata" in ast.unparse(c.value) and isinstance(c.slice, ast.Constant):
-                            return c.slice.value, c
+            if not (n.kind == "if" and n.part is not None and n not in guard_nodes):
+                continue
+            # the edge of this branch that selects the exceptional completion (either one: `if failed: set_exception`
+            # or `if not failed: set_result else: set_exception`)
+            labs = [lab for lab in ("T", "F") if any(gq.dominated_by_edge(e.id, n.id, lab) for e in exc_nodes)]
+            if len(labs) != 1:
+                continue
+            hit = marker_read(n.part)
+            if hit is not None:
+                marker_key, marker_var = hit[0], ast.unparse(hit[1])
+            else:
+                for nm in sorted({x.id for x in ast.walk(n.part) if isinstance(x, ast.Name)}):
+                    for rhs in assigned_value(sf, nm):
+                        hit = marker_read(rhs)
+                        if hit is not None:
+                            marker_key, marker_var = hit[0], nm
+            if marker_var:
+                mv = marker_var
+
+                def marker_atom(x: ast.AST, kind: str) -> Optional[bool]:
+                    if kind == "presence" and isinstance(x, ast.Compare) and len(x.ops) == 1 and isinstance(x.ops[0], (ast.Is, ast.IsNot)) and isinstance(x.comparators[0], ast.Constant) and x.comparators[0].value is None and ast.unparse(x.left) == mv:
+                        return isinstance(x.ops[0], ast.IsNot)
+                    if kind == "truthiness" and ast.unparse(x) == mv:
+                        return True
                     return None
 
-                hit = marker_read(n.part)
-                if hit is not None:
-                    marker_key, marker_var = hit[0], ast.unparse(hit[1])
+                t = n.part
+                if labs[0] in edges_guaranteeing(t, lambda x: marker_atom(x, "presence")) and not isinstance(t, ast.BoolOp):
+                    test_kind = "presence"
+                elif labs[0] in edges_guaranteeing(t, lambda x: marker_atom(x, "truthiness")) and not isinstance(t, ast.BoolOp):
+                    test_kind = "truthiness"
+                elif isinstance(t, ast.Compare) and len(t.ops) == 1 and isinstance(t.ops[0], (ast.Eq, ast.In)):
+                    test_kind = "equality"
                 else:
-                    for nm in sorted({x.id for x in ast.walk(n.part) if isinstance(x, ast.Name)}):
-                        for rhs in assigned_value(rf, nm):
-                            hit = marker_read(rhs)
-                            if hit is not None:
-                                marker_key, marker_var = hit[0], nm
-                if marker_var:
-                    t = n.part
-                    if isinstance(t, ast.Compare) and len(t.ops) == 1 and isinstance(t.ops[0], ast.IsNot) and isinstance(t.comparators[0], ast.Constant) and t.comparators[0].value is None and ast.unparse(t.left) == marker_var:
-                        test_kind = "presence"
-                    elif ast.unparse(t) == marker_var:
-                        test_kind = "truthiness"
-                    elif isinstance(t, ast.Compare) and len(t.ops) == 1 and isinstance(t.ops[0], (ast.Eq, ast.In)):
-                        test_kind = "equality"
-                    else:
-                        test_kind = "other"
-                    break
+                    test_kind = "other"
+                break
         if marker_key is None:
-            R.violation(r_res, Q, "QueueSemantivaOrchestrator.run_forever", "failure marker", "the branch selecting set_exception does not test a marker read from the status message's metadata", rf.lineno)
+            R.violation(r_res, srel, sqn, "failure marker", "the branch selecting set_exception does not test a marker read from the status message's metadata", sf.lineno)
         else:
             # worker side: failure publishes write the marker, success publishes do not
             fail_values: List[Tuple[ast.AST, ast.AST, str]] = []
-            succ_has_marker = False
             n_fail = n_succ = 0
             for fn in wfuncs:
                 for c in calls_in(fn):
@@ -578,7 +967,7 @@ def run(repo: Repo, R: Report) -> None:
                         else:
                             n_succ += 1
             R.check(n_fail > 0, r_res, W, "worker", f"failure status writes metadata[{marker_key!r}]", f"no worker status publish writes the marker {marker_key!r} the master tests: failures are reported as successes", 0)
-            R.check(n_succ > 0, r_res, W, "worker_loop", f"success status omits metadata[{marker_key!r}]", "every status carries the failure marker: successful jobs complete exceptionally", 0)
+            R.check(n_succ > 0, r_res, wrel, wqn, f"success status omits metadata[{marker_key!r}]", "every status carries the failure marker: successful jobs complete exceptionally", 0)
             # polarity: can a written failure value make the master's test false?
             for fn, val, qn in fail_values:
                 truthy = _provably_truthy(repo, wmod, fn, val)
@@ -591,65 +980,118 @@ def run(repo: Repo, R: Report) -> None:
                     ok = False
                 R.check(ok, r_res, W, qn, f"metadata[{marker_key!r}] = {norm(val)} vs master test ({test_kind})",
                         f"a worker failure can write a value for which the master's {test_kind} test is false (e.g. an empty message): the failing job completes as a success", getattr(val, "lineno", 0))
-    # result delivered = (msg.data, msg.context) of the same message
-    status_loops = [n for n in walk_no_nested(rf) if isinstance(n, ast.For) and isinstance(n.target, ast.Name) and any(is_set(x) for x in gq.nodes if x.ast is not None and any(y is x.ast for y in ast.walk(n)))]
+    # the job id the master looks up is read from the status message's context; the result delivered is
+    # (data, context) of that same message
+    master_fns = [sf] + ([rf] if sf is not rf else [])
+    ctx_key = None
+    status_msg = None
+    for f in master_fns:
+        cands = [v for nm in ([jid] if jid else []) for st in walk_no_nested(f) for n2, v in _bindings(st) if n2 == nm and v is not None] or [c for c in calls_in(f)]
+        for v in cands:
+            for c in ast.walk(v):
+                if isinstance(c, ast.Call) and call_attr(c) == "get_value" and c.args and isinstance(c.args[0], ast.Constant) and ctx_key is None:
+                    ctx_key = c.args[0].value
+                    root = dotted_name(c.func.value)  # type: ignore[attr-defined]
+                    status_msg = root.split(".")[0] if root else None
+        if ctx_key is not None:
+            break
+    if ctx_key is None:
+        raise AnalysisError("run_forever: job id lookup in the status context not found")
     for n in res_nodes:
         for c in calls_in(n.ast):
-            if call_attr(c) == "set_result" and c.args:
+            if id(c) in comp_ids and c.func.attr == "set_result" and c.args:  # type: ignore[attr-defined]
                 a = c.args[0]
-                m = status_loops[0].target.id if status_loops else "msg"
-                ok = isinstance(a, ast.Tuple) and [dotted_name(e) for e in a.elts] == [f"{m}.data", f"{m}.context"]
-                R.check(ok, r_corr, Q, "QueueSemantivaOrchestrator.run_forever", norm(c)[:90], "the future's result is not (data, context) of the status message that was matched", c.lineno)
+                elts = [dotted_name(e) or "" for e in a.elts] if isinstance(a, ast.Tuple) else []
+                roots = {e.rsplit(".", 1)[0] for e in elts}
+                m = status_msg if (sf is rf or status_msg in sparams) else (roots.pop() if len(roots) == 1 and next(iter(roots)) in sparams else status_msg)
+                ok = elts == [f"{m}.data", f"{m}.context"]
+                R.check(ok, r_corr, srel, sqn, norm(c)[:90], "the future's result is not (data, context) of the status message that was matched", c.lineno)
 
     # ------------------------------------------------------------------ D3
-    repo.func(Q, "QueueSemantivaOrchestrator.enqueue")  # anchor
-    enq = nfunc(repo, Q, "QueueSemantivaOrchestrator.enqueue", copyprop="all")
     r_ord = R.rule("C15-D3-register-before-publish", "the pending future is registered before the job is put on the queue", 1)
     ge = CFG(enq, may_raise=lambda part: set())
-    store = [n for n in ge.nodes if n.ast is not None and isinstance(n.ast, ast.Assign) and any(isinstance(t, ast.Subscript) and dotted_name(t.value) == pend for t in n.ast.targets)]
-    put = [n for n in ge.nodes if n.ast is not None and n.kind == "stmt" and any(call_attr(c) == "put" and "job_queue" in (call_name(c) or "") for c in calls_in(n.ast))]
+    store = [n for n in ge.nodes if n.ast is not None and any(n.ast is s for s in fut_stores)]
+    put = [n for n in ge.nodes if n.ast is not None and n.kind == "stmt" and any(c is p for c in calls_in(n.ast) for p in queue_puts(enq))]
     if not store or not put:
         raise AnalysisError("enqueue: pending store or queue put not found")
     after_put = ge.reach([p.id for p in put])
     late = [s for s in store if s.id in after_put]
-    R.check(not late, r_ord, Q, "QueueSemantivaOrchestrator.enqueue", norm(store[0].ast), "the future is registered after the job became visible to the master loop: a fast worker's status finds no pending entry and is dropped", store[0].line, ge.path_to(after_put, late[0].id) if late else None)
+    R.check(not late, r_ord, erel, eqn, norm(store[0].ast), "the future is registered after the job became visible to the master loop: a fast worker's status finds no pending entry and is dropped", store[0].line, ge.path_to(after_put, late[0].id) if late else None)
     # the key stored and the id put on the queue are the same variable
-    skey = dotted_name(store[0].ast.targets[0].slice)
-    put_call = next(c for c in calls_in(put[0].ast) if call_attr(c) == "put")
-    tup = _deref(enq, put_call.args[0]) if put_call.args else None
+    skey = dotted_name(next(t for t in store[0].ast.targets if isinstance(t, ast.Subscript)).slice)
+    tup = _deref(enq, put_call.args[0])
     first = dotted_name(tup.elts[0]) if isinstance(tup, ast.Tuple) and tup.elts else None
-    R.check(skey is not None and skey == first, r_corr, Q, "QueueSemantivaOrchestrator.enqueue", norm(put_call)[:90], "the queued job id is not the key under which the future was registered", put_call.lineno)
+    R.check(skey is not None and skey == first, r_corr, erel, eqn, norm(put_call)[:90], "the queued job id is not the key under which the future was registered", put_call.lineno)
     # stored value is the returned future
     sval = dotted_name(store[0].ast.value)
-    rets = [dotted_name(n.value) for n in walk_no_nested(enq) if isinstance(n, ast.Return) and n.value is not None and not (isinstance(n.value, ast.Constant) and n.value.value is None)]
-    R.check(sval is not None and all(r == sval for r in rets) and bool(rets), r_corr, Q, "QueueSemantivaOrchestrator.enqueue", f"return {sval}", "the returned Future is not the one registered as pending", enq.lineno)
+    R.check(sval is not None and all(r == sval for r in rets) and bool(rets), r_corr, erel, eqn, f"return {sval}", "the returned Future is not the one registered as pending", enq.lineno)
+    # positions of the job's fields in the queued tuple, by role: the element that is the registered key, and the
+    # elements that read enqueue's `data` / `context` parameters and its first positional parameter (the pipeline)
+    eparams = [a.arg for a in enq.args.posonlyargs + enq.args.args if a.arg not in ("self", "cls")]  # type: ignore[attr-defined]
+
+    def reads(e: ast.AST, param: str, depth: int = 0) -> bool:
+        """*e* is computed from enqueue's parameter *param* (through locals)."""
+        for x in ast.walk(e):
+            if isinstance(x, ast.Name) and isinstance(x.ctx, ast.Load):
+                if x.id == param:
+                    return True
+                if depth < 3 and x.id not in eparams and any(v is not None and reads(v, param, depth + 1) for st in walk_no_nested(enq) for nm, v in _bindings(st) if nm == x.id):
+                    return True
+        return False
+
+    def tuple_index(param: Optional[str]) -> Optional[int]:
+        hits = [i for i, e in enumerate(tup.elts) if param is not None and reads(e, param)] if isinstance(tup, ast.Tuple) else []
+        return hits[0] if len(hits) == 1 else None
+
+    i_id, i_pipe, i_data, i_ctx = 0, tuple_index(eparams[0] if eparams else None), tuple_index("data"), tuple_index("context")
+    if None in (i_pipe, i_data, i_ctx):
+        raise AnalysisError("enqueue: position of pipeline / data / context in the queued tuple not recognised")
 
     # ------------------------------------------------------------------ D4 (remaining hops)
-    # run_forever: tuple unpack from job_queue.get, publish cfg with the same id and values
+    # the function that broadcasts a dequeued job: the tuple taken from the queue is unpacked and published on
+    # jobs.<id>.cfg with the same id and values
+    def cfg_publishes(f: ast.AST) -> List[ast.Call]:
+        return [c for c in calls_in(f) if call_attr(c) == "publish" and c.args and (channel_template(c, f) or ("", []))[0].endswith(".cfg")]
+
+    crel, cqn, cf = role_function(repo, Q, RUN, lambda f: bool(cfg_publishes(f)), "publish of the dequeued job on jobs.<id>.cfg", copyprop="all")
+
+    def is_queue_get(v: Optional[ast.AST], depth: int = 0) -> bool:
+        if isinstance(v, ast.Name) and depth < 2:
+            # a local naming the dequeued tuple; `None` may stand in where the queue was empty
+            vals = [b for st in walk_no_nested(cf) for nm, b in _bindings(st) if nm == v.id and not (isinstance(b, ast.Constant) and b.value is None)]
+            return bool(vals) and all(b is not None and is_queue_get(b, depth + 1) for b in vals)
+        return isinstance(v, ast.Call) and call_attr(v) == "get" and (dotted_name(v.func.value) == queue_name or "queue" in (call_name(v) or "").lower())  # type: ignore[attr-defined]
+
     unpack = None
-    for n in walk_no_nested(rf):
-        if isinstance(n, ast.Assign) and isinstance(n.targets[0], ast.Tuple) and isinstance(n.value, ast.Call) and call_attr(n.value) == "get" and "job_queue" in (call_name(n.value) or ""):
+    for n in walk_no_nested(cf):
+        if isinstance(n, ast.Assign) and isinstance(n.targets[0], (ast.Tuple, ast.List)) and is_queue_get(n.value):
             unpack = n
     if unpack is None:
         raise AnalysisError("run_forever: unpacking of job_queue.get(...) not found")
-    names = [e.id if isinstance(e, ast.Name) else None for e in unpack.targets[0].elts]
-    cfg_pubs = [c for c in calls_in(rf) if call_attr(c) == "publish" and c.args and (channel_template(c, rf) or ("", []))[0].endswith(".cfg")]
+    names = [e.id if isinstance(e, ast.Name) else None for e in unpack.targets[0].elts]  # type: ignore[attr-defined]
+    if isinstance(tup, ast.Tuple) and len(names) != len(tup.elts):
+        R.violation(r_corr, crel, cqn, norm(unpack)[:90], f"the master unpacks {len(names)} values from a queue on which enqueue puts {len(tup.elts)}", unpack.lineno)
+        names = (names + [None] * len(tup.elts))[:max(len(names), len(tup.elts))]
+    cfg_pubs = cfg_publishes(cf)
     if len(cfg_pubs) != 1:
         raise AnalysisError("run_forever: exactly one jobs.<id>.cfg publish expected")
     cp = cfg_pubs[0]
-    tmpl, tnames = channel_template(cp, rf)  # type: ignore[misc]
-    R.check(tnames == [names[0]], r_corr, Q, "QueueSemantivaOrchestrator.run_forever", norm(cp.args[0]), "cfg channel is not named after the dequeued job id", cp.lineno)
-    mk = metadata_keys(cp, rf) or {}
-    R.check(job_key in mk and dotted_name(mk[job_key]) == names[0], r_corr, Q, "QueueSemantivaOrchestrator.run_forever", f"metadata[{job_key!r}] = {names[0]}",
+    tmpl, tnames = channel_template(cp, cf)  # type: ignore[misc]
+    R.check(tnames == [names[i_id]], r_corr, crel, cqn, norm(cp.args[0]), "cfg channel is not named after the dequeued job id", cp.lineno)
+    mk = metadata_keys(cp, cf) or {}
+    R.check(job_key in mk and dotted_name(mk[job_key]) == names[i_id], r_corr, crel, cqn, f"metadata[{job_key!r}] = {names[i_id]}",
             f"the cfg message does not carry the dequeued job id under {job_key!r}, the key the worker reads", cp.lineno)
-    R.check("pipeline" in mk and dotted_name(mk["pipeline"]) == names[1] and dotted_name(kwarg(cp, "data")) == names[2] and dotted_name(kwarg(cp, "context")) == names[3],
-            r_corr, Q, "QueueSemantivaOrchestrator.run_forever", "cfg publish carries pipeline/data/context of the same dequeued tuple", "the cfg message mixes values of different jobs", cp.lineno)
     # worker subscription pattern matches the master's cfg template, and vice versa for status
     wsubs = [c for c in calls_in(wl) if call_attr(c) == "subscribe" and c.args and isinstance(_deref(wl, c.args[0]), ast.Constant)]
-    msubs = [c for c in calls_in(rf) if call_attr(c) == "subscribe" and c.args and isinstance(_deref(rf, c.args[0]), ast.Constant)]
+    msub_fn, msubs = rf, []
+    for f in [rf] + master_fns + [cf]:
+        msubs = [c for c in calls_in(f) if call_attr(c) == "subscribe" and c.args and isinstance(_deref(f, c.args[0]), ast.Constant)]
+        if msubs:
+            msub_fn = f
+            break
     if not wsubs or not msubs:
         raise AnalysisError("subscribe patterns not found")
-    R.check(fnmatch(tmpl.replace("{}", "00000000-0000"), _deref(wl, wsubs[0].args[0]).value) and not fnmatch("jobs.0000.status", _deref(wl, wsubs[0].args[0]).value), r_corr, W, "worker_loop", norm(wsubs[0]),
+    R.check(fnmatch(tmpl.replace("{}", "00000000-0000"), _deref(wl, wsubs[0].args[0]).value) and not fnmatch("jobs.0000.status", _deref(wl, wsubs[0].args[0]).value), r_corr, wrel, wqn, norm(wsubs[0]),
             "worker subscription pattern does not match exactly the master's cfg channel template", wsubs[0].lineno)
     status_templates = set()
     for fn in wfuncs:
@@ -657,13 +1099,9 @@ def run(repo: Repo, R: Report) -> None:
             if is_status_publish(c, fn=fn):
                 status_templates.add(channel_template(c, fn)[0])  # type: ignore[index]
     for st_t in sorted(status_templates):
-        R.check(fnmatch(st_t.replace("{}", "00000000-0000"), _deref(rf, msubs[0].args[0]).value) and not fnmatch("jobs.0000.cfg", _deref(rf, msubs[0].args[0]).value), r_corr, Q, "QueueSemantivaOrchestrator.run_forever", norm(msubs[0]) + f" ~ {st_t}",
+        R.check(fnmatch(st_t.replace("{}", "00000000-0000"), _deref(msub_fn, msubs[0].args[0]).value) and not fnmatch("jobs.0000.cfg", _deref(msub_fn, msubs[0].args[0]).value), r_corr, Q, RUN, norm(msubs[0]) + f" ~ {st_t}",
                 "master subscription pattern does not match the worker's status channel template", msubs[0].lineno)
     # context key written by worker (both outcomes) = key read by master
-    read_keys = [c.args[0].value for c in calls_in(rf) if call_attr(c) == "get_value" and c.args and isinstance(c.args[0], ast.Constant)]
-    ctx_key = read_keys[0] if read_keys else None
-    if ctx_key is None:
-        raise AnalysisError("run_forever: job id lookup in the status context not found")
     for fn in wfuncs:
         for c in calls_in(fn):
             if is_status_publish(c, fn=fn):
@@ -676,56 +1114,49 @@ def run(repo: Repo, R: Report) -> None:
                         f"a status message is published whose context does not carry this job's id under {ctx_key!r}: the master cannot find the pending future", c.lineno)
                 if writes and cname:
                     _annotation_reaches_publish(R, r_corr, fn, c, cname, ctx_key, jv, writes)
-    # payload of the job is built from this message
-    def from_this_message(e: ast.AST, depth: int = 0) -> bool:
-        """*e* reads this message (directly or through locals) and, besides it, only fresh objects built on the
-        spot and locals that are themselves (re)built inside the job body from this message."""
-        reads_msg = msg in {x.id for x in ast.walk(e) if isinstance(x, ast.Name)}
-        for nm in _free_names(e, msg):
-            defs = assigned_value(wl, nm)
-            inside = [st for st in ast.walk(loop) if isinstance(st, ast.Assign) and any(isinstance(t, ast.Name) and t.id == nm for t in st.targets)]
-            if depth >= 2 or not defs or len(inside) != len(defs) or not all(from_this_message(v, depth + 1) for v in defs):
-                return False
-            reads_msg = True
-        return reads_msg
+    # payload of the job is built from this message: every definition of the two payload values that can reach
+    # the call lies inside the job body and is computed from this message, or is a fresh default object that is
+    # chosen only where the message's own field is None
+    pipe_key = None
+    for n in g.nodes:
+        if n.ast is None or id(n.ast) not in prov.inside or n.kind not in ("stmt", "if", "while", "for", "with"):
+            continue
+        scope_part = n.ast if n.kind == "stmt" else n.part
+        for c in (calls_in(scope_part) if scope_part is not None else []):
+            if call_attr(c) == "Payload" and len(c.args) + len(c.keywords) == 2:
+                pargs = list(c.args) + [k.value for k in c.keywords]
+                per_arg = [prov.alts(a, n.id) for a in pargs]
+                bad = next((l for ls in per_arg for l in ls if l.kind not in ("message", "fresh")), None)
+                ok = bad is None and all(any(l.kind == "message" for l in ls) for ls in per_arg)
+                R.check(ok, r_corr, wrel, wqn, norm(c), "the job's payload is not built, inside the job body, from this message's data and context (state shared between jobs)"
+                        + (f": `{norm(bad.expr)[:50]}` is bound outside the job body or not derived from the message" if bad is not None else ""), c.lineno)
+                # ... and it is this message's data / context themselves: a default may stand in only for a field that is
+                # None - a truthiness test (`msg.data or Default()`, `if not data: data = Default()`) also replaces an
+                # *empty* data collection / context collection, and the queued job then runs on other input than the direct run
+                for a, ls in zip(pargs, per_arg):
+                    fields = prov.fields_read(ls)
+                    bad_l = next((l for l in ls if l.kind == "fresh" and not prov.none_guarded(l, fields)), None)
+                    R.check(bad_l is None, r_corr, wrel, wqn, f"Payload argument `{norm(a)[:30]}` is the message's own field (a default only for None)",
+                            f"`{norm(bad_l.expr)[:70] if bad_l is not None else ''}` replaces the job's input where the message's field is not known to be None (e.g. whenever it is falsy): an empty data collection (len 0) or an empty context collection is swapped for a default object, so the job does not run on the payload that was queued",
+                            getattr(bad_l.expr, "lineno", c.lineno) if bad_l is not None else c.lineno)
+            if call_attr(c) == "Pipeline" and (c.args or c.keywords):
+                a = c.args[0] if c.args else c.keywords[0].value
+                prov.meta_keys = []
+                ls = prov.alts(a, n.id)
+                ok = bool(ls) and all(l.kind == "message" for l in ls) and len(set(prov.meta_keys)) == 1
+                if ok:
+                    pipe_key = prov.meta_keys[0]
+                R.check(ok, r_corr, wrel, wqn, norm(c), "the executed pipeline is not the one configured in this message", c.lineno)
+    if pipe_key is None:
+        pipe_key = "pipeline"
 
-    for c in calls_in(loop):
-        if call_attr(c) == "Payload" and len(c.args) == 2:
-            ok = True
-            for a in c.args:
-                if isinstance(a, ast.Name):
-                    defs = [v for v in assigned_value(wl, a.id)]
-                    inside = [st for st in ast.walk(loop) if isinstance(st, ast.Assign) and any(isinstance(t, ast.Name) and t.id == a.id for t in st.targets)]
-                    ok = ok and bool(defs) and len(inside) == len(defs) and all(from_this_message(v) for v in defs)
-                else:
-                    ok = ok and from_this_message(a)
-            R.check(ok, r_corr, W, "worker_loop", norm(c), "the job's payload is not built, inside the job body, from this message's data and context (state shared between jobs)", c.lineno)
-            # ... and it is this message's data / context themselves: a default may stand in only for a field that is
-            # None - a truthiness test (`msg.data or Default()`) also replaces an *empty* data collection / context
-            # collection, and the queued job then runs on other input than the direct run
-            def reads_field(e: ast.AST) -> bool:
-                return isinstance(e, ast.Attribute) and isinstance(e.value, ast.Name) and e.value.id == msg
+    def same_local(e: Optional[ast.AST], idx: Optional[int]) -> bool:
+        return e is not None and idx is not None and idx < len(names) and names[idx] is not None and dotted_name(_deref(cf, e)) == names[idx]
 
-            def truthiness_default(v: ast.AST) -> Optional[ast.AST]:
-                if isinstance(v, ast.BoolOp) and isinstance(v.op, ast.Or) and reads_field(v.values[0]):
-                    return v
-                if isinstance(v, ast.IfExp):
-                    t = v.test.operand if isinstance(v.test, ast.UnaryOp) and isinstance(v.test.op, ast.Not) else v.test
-                    if reads_field(t) or (isinstance(t, ast.Call) and call_name(t) in ("bool", "len") and t.args and reads_field(t.args[0])):
-                        return v
-                return None
-
-            for a in c.args:
-                vals = [a] if not isinstance(a, ast.Name) else list(assigned_value(wl, a.id))
-                bad_v = next((b for v in vals for b in [truthiness_default(v)] if b is not None), None)
-                R.check(bad_v is None, r_corr, W, "worker_loop", f"Payload argument `{norm(a)[:30]}` is the message's own field (a default only for None)", f"`{norm(bad_v)[:70] if bad_v is not None else ''}` replaces the job's input whenever it is falsy: an empty data collection (len 0) or an empty context collection is swapped for a default object, so the job does not run on the payload that was queued", getattr(bad_v, "lineno", c.lineno))
-        if call_attr(c) == "Pipeline" and c.args:
-            a = c.args[0]
-            ok = False
-            if isinstance(a, ast.Name):
-                defs = assigned_value(wl, a.id)
-                ok = bool(defs) and any("metadata" in ast.unparse(v) and msg in ast.unparse(v) for v in defs)
-            R.check(ok, r_corr, W, "worker_loop", norm(c), "the executed pipeline is not the one configured in this message", c.lineno)
+    cp_data = kwarg(cp, "data") or (cp.args[1] if len(cp.args) > 1 else None)
+    cp_ctx = _publish_context(cp)
+    R.check(pipe_key in mk and same_local(mk[pipe_key], i_pipe) and same_local(cp_data, i_data) and same_local(cp_ctx, i_ctx),
+            r_corr, crel, cqn, "cfg publish carries pipeline/data/context of the same dequeued tuple", f"the cfg message mixes values of different jobs (or does not carry the pipeline under {pipe_key!r}, the key the worker reads)", cp.lineno)
 
     # ------------------------------------------------------------------ D5 transport hand-over
     # The property's anchors name the in-memory transport's pop-under-lock hand-over as the
@@ -746,16 +1177,27 @@ def run(repo: Repo, R: Report) -> None:
         R.rule_prefix = ""
 
     # ------------------------------------------------------------------ D6 the loops' scan survives publishers
-    scan_rule(repo, R, rf, wl)
+    scan_rule(repo, R, rf, wl, (wrel, wqn))
 
 
-def _message_loops(fn: ast.AST) -> List[ast.For]:
-    """for-loops of *fn* that drain a subscription: the iterable is `<x>.subscribe(...)` or a local bound to it."""
-    out = []
+def _message_loops(fn: ast.AST) -> List[ast.AST]:
+    """Loops of *fn* that drain a subscription: a for statement whose iterable is `<x>.subscribe(...)` or a local
+    bound to it (possibly under enumerate / iter / zip), or a while loop that takes `next(<it>)` of such an iterator."""
+    def is_sub(e: Optional[ast.AST], depth: int = 0) -> bool:
+        e = _unwrap_iter(e) if e is not None else None
+        if isinstance(e, ast.Name) and depth < 3:
+            vals = assigned_value(fn, e.id)
+            return bool(vals) and all(is_sub(v, depth + 1) for v in vals)
+        return isinstance(e, ast.Call) and call_attr(e) == "subscribe"
+
+    out: List[ast.AST] = []
     for n in walk_no_nested(fn):
-        if isinstance(n, ast.For):
-            vals = assigned_value(fn, n.iter.id) if isinstance(n.iter, ast.Name) else [n.iter]
-            if vals and all(isinstance(v, ast.Call) and call_attr(v) == "subscribe" for v in vals):
+        if isinstance(n, ast.For) and is_sub(n.iter):
+            out.append(n)
+        elif isinstance(n, ast.While):
+            nexts = [c for c in ast.walk(n) if isinstance(c, ast.Call) and isinstance(c.func, ast.Name) and c.func.id == "next" and c.args and is_sub(c.args[0])]
+            inner = [l for l in ast.walk(n) if isinstance(l, (ast.For, ast.While)) and l is not n]
+            if any(not any(c is x for l in inner for x in ast.walk(l)) for c in nexts):
                 out.append(n)
     return out
 
@@ -774,7 +1216,7 @@ def _catches_exception(loop: ast.AST, fn: ast.AST) -> bool:
     return False
 
 
-def scan_rule(repo: Repo, R: Report, rf: ast.AST, wl: ast.AST) -> None:
+def scan_rule(repo: Repo, R: Report, rf: ast.AST, wl: ast.AST, worker: Tuple[str, str] = (W, "worker_loop")) -> None:
     """D6: the master's and the workers' message loops run the transport's channel scan inside `for msg in sub`.
     Every job creates two new channels (jobs.<id>.cfg / jobs.<id>.status) from other threads, so a scan that walks
     the live channel map raises `RuntimeError: dictionary changed size during iteration` in the looping thread;
@@ -782,7 +1224,7 @@ def scan_rule(repo: Repo, R: Report, rf: ast.AST, wl: ast.AST) -> None:
     catch-all ends the worker.  Necessary condition: every iteration over the shared channel map is over a
     snapshot taken in one C-level call, or holds the lock under which every insertion happens."""
     r_scan = R.rule("C15-D6-scan-survives-publishers", "every iteration over the channel map shared between the transport and its subscriptions (the scan driven by the master's and the workers' `for msg in sub`) is over a one-call snapshot (list/tuple/sorted/.copy()) or under the lock held by every insertion; a live walk raises RuntimeError when another thread publishes on a new channel and kills the loop that completes the futures", 1)
-    loops = [(Q, "QueueSemantivaOrchestrator.run_forever", rf, l) for l in _message_loops(rf)] + [(W, "worker_loop", wl, l) for l in _message_loops(wl)]
+    loops = [(Q, "QueueSemantivaOrchestrator.run_forever", rf, l) for l in _message_loops(rf)] + [(worker[0], worker[1], wl, l) for l in _message_loops(wl)]
     if len(loops) < 2:
         raise AnalysisError("message loops over a subscription not found in run_forever / worker_loop")
     unprotected = [qn for _f, qn, fn, l in loops if not _catches_exception(l, fn)]
